@@ -4,7 +4,7 @@
    error_map, _raise_for_status, _DetectTruncation, get_chunk + bucket check, RDB fetch), Model/Jwt.v. *)
 From Coq Require Import ZArith List Bool String.
 From KV Require Import Base.Sx Base.Str Gen.Generated Model.S3Retry Model.S3Session Model.Jwt Model.JwtHist Model.S3Url
-  Proofs.S3RetryP Proofs.S3SessionP Proofs.JwtP Proofs.JwtHistP Proofs.S3UrlP.
+  Model.S3Budget Proofs.S3RetryP Proofs.S3SessionP Proofs.JwtP Proofs.JwtHistP Proofs.S3UrlP Proofs.S3BudgetP.
 Import ListNotations.
 Open Scope Z_scope.
 
@@ -511,3 +511,99 @@ Example C09_url_examples :
   s3_path_sep = 47 /\ s3_bucket_from = 95 /\ s3_bucket_to = 45 /\ s3_chunk_extension = ".npy"%string.
 Proof. vm_compute. repeat split; reflexivity. Qed.
 Print Assumptions C09_url_examples.
+
+(* =====================================================================================
+   WHICH retry budget is in force at each request site (Model/S3Budget.v): a function of the store-level `retries`
+   argument `user` (None = not given | one number | (connect, read) | a Retry object) and of the per-call `retries=`
+   keyword of the call site, both combined as S3ChunkStore.__init__ / request / _retry_object combine them; the keyword
+   of every call site and the completing keywords are re-translated from the source at every run.
+   ===================================================================================== *)
+
+(* ---- every request site (chunk GET, RDB GET, bucket listing, chunk PUT, bucket PUT, marker PUT, marker GET) runs with
+   the store-level budget, whatever form the `retries` argument has ---- *)
+Theorem C09_request_sites_use_store_budget : forall user s, site_config user s = store_retries user.
+Proof. exact site_is_store. Qed.
+Print Assumptions C09_request_sites_use_store_budget.
+
+(* ---- "RDB files fetched over HTTP obey the same rules": the RDB request has the budget of a chunk request of the same
+   store configuration ---- *)
+Theorem C09_rdb_same_budget_as_chunk : forall user, site_config user SRdb = site_config user SChunk.
+Proof. exact rdb_same_budget_as_chunk. Qed.
+Print Assumptions C09_rdb_same_budget_as_chunk.
+
+(* ... it IS the chunk-site request loop run on the file ... *)
+Theorem C09_rdb_is_chunk_site_request : forall user len fs,
+  user_rdb_fetch user len fs =
+  (let '(res, n) := request (site_config user SChunk) PObject len [] fs in
+   (match res with Ok d => RdbOk d | Err Raw => RdbRaw | Err _ => RdbNotFound end, n)).
+Proof. exact rdb_is_chunk_site_request. Qed.
+Print Assumptions C09_rdb_is_chunk_site_request.
+
+(* ... and met by the same faults on an object of the same length it ends like the chunk request, after the same number
+   of requests (every failure as DataSourceNotFound) ---- *)
+Theorem C09_rdb_like_chunk : forall user segs fs,
+  wf_user user = true -> Forall (fun o => wf_outcome o = true) fs ->
+  let '(cres, cn) := request (site_config user SChunk) (PChunk segs) (total segs) [] fs in
+  user_rdb_fetch user (total segs) fs = (match cres with Ok d => RdbOk d | Err _ => RdbNotFound end, cn).
+Proof. exact rdb_like_chunk. Qed.
+Print Assumptions C09_rdb_like_chunk.
+
+(* ---- for EVERY form of the `retries` argument, every fault sequence: the data set opened from an http RDB URL and the
+   chunk request obey the counting spec with the STORE-LEVEL budget ---- *)
+Theorem C09_rdb_same_rules_for_user : forall user len fs,
+  wf_user user = true -> Forall (fun o => wf_outcome o = true) fs ->
+  user_rdb_fetch user len fs =
+  (match spec_result (c_forcelist (store_retries user)) len (c_retry (store_retries user)) fs with
+   | Ok d => RdbOk d | Err _ => RdbNotFound end,
+   spec_requests (c_forcelist (store_retries user)) len (c_retry (store_retries user)) fs).
+Proof. exact user_rdb_is_spec. Qed.
+Print Assumptions C09_rdb_same_rules_for_user.
+
+Theorem C09_chunk_request_for_user : forall user segs fs,
+  wf_user user = true -> Forall (fun o => wf_outcome o = true) fs ->
+  request (site_config user SChunk) (PChunk segs) (total segs) [] fs = spec_request (store_retries user) (total segs) fs.
+Proof. exact user_chunk_request_is_spec. Qed.
+Print Assumptions C09_chunk_request_for_user.
+
+(* get_chunk incl. the listing request of the 404 rule, put_chunk, is_complete, mark_complete: as proved above for a
+   configuration `cfg`, with cfg = the store-level budget *)
+Theorem C09_other_sites_for_user :
+  (forall user segs len blen verified b fs fsb,
+     user_get_chunk user segs len blen verified b fs fsb = get_chunk (store_retries user) segs len blen verified b fs fsb) /\
+  (forall user fs, wf_user user = true -> Forall (fun o => wf_outcome o = true) fs ->
+     user_put_chunk user O fs = spec_request (store_retries user) O fs) /\
+  (forall user fs, wf_user user = true -> Forall (fun o => wf_outcome o = true) fs ->
+     user_is_complete user O fs =
+     (spec_is_complete (store_retries user) O fs,
+      spec_requests (c_forcelist (store_retries user)) O (c_retry (store_retries user)) fs)) /\
+  (forall user fs, user_mark_complete user fs = spec_mark_complete (store_retries user) fs).
+Proof. exact other_sites_for_user. Qed.
+Print Assumptions C09_other_sites_for_user.
+
+(* ---- the store-level budget by the form of the argument: one number = connect and read, a pair = (connect, read), both
+   completed with 5 status retries on 500/502/503/504 and urllib3's total of 10; no argument = 2; a Retry object as it is ---- *)
+Theorem C09_store_budget_forms : forall c r,
+  store_retries (Some (RPair c r)) = mkConfig (mkRetry (Some 10) (Some c) (Some r) (Some 5)) [500; 502; 503; 504] /\
+  store_retries (Some (RInt c)) = mkConfig (mkRetry (Some 10) (Some c) (Some c) (Some 5)) [500; 502; 503; 504] /\
+  store_retries None = mkConfig (mkRetry (Some 10) (Some 2) (Some 2) (Some 5)) [500; 502; 503; 504] /\
+  (forall rt fl, store_retries (Some (RObj rt fl)) = mkConfig rt fl).
+Proof. exact store_retries_numbers. Qed.
+Print Assumptions C09_store_budget_forms.
+
+(* ---- recorded so that the model stays honest (and the reason why no call site may pass `retries=`): S3ChunkStore.request
+   does NOT complete a number / pair given per call with the store defaults - no status budget, an EMPTY forcelist - so an
+   RDB request with the override (2, 5) on a default store gives up on a single 503 although five status retries are
+   configured, and accepts three cut bodies although two read retries are configured; a Retry object is used as it is ---- *)
+Example C09_per_call_override_drops_store_defaults :
+  let cfg := request_retries (store_retries None) (Some (RPair 2 5)) in
+  cfg = mkConfig (mkRetry (Some 10) (Some 2) (Some 5) None) [] /\
+  rdb_fetch cfg 100 [Status 503] = (RdbNotFound, 1%nat) /\
+  spec_request (store_retries None) 100 [Status 503] = (Ok 100%nat, 2%nat) /\
+  rdb_fetch cfg 100 [Trunc 7; Trunc 7; Trunc 7] = (RdbOk 100%nat, 4%nat) /\
+  spec_request (store_retries None) 100 [Trunc 7; Trunc 7; Trunc 7] = (Err Glitch, 3%nat).
+Proof. exact override_drops_store_defaults. Qed.
+Print Assumptions C09_per_call_override_drops_store_defaults.
+
+Theorem C09_per_call_retry_object_kept : forall store r fl, request_retries store (Some (RObj r fl)) = mkConfig r fl.
+Proof. exact override_retry_object_kept. Qed.
+Print Assumptions C09_per_call_retry_object_kept.
